@@ -1567,6 +1567,20 @@ func putmapdomtext(w io.Writer, a []byte) {
 	putdomtext(w, a)
 }
 
+// putservertext writes the server name of a . & @ S line. A name without a
+// dot would be read back as the prefix x of x.ns.fqdn (x.mx.fqdn, x.srv.fqdn),
+// so a single-label name keeps a trailing dot and the root is written as ".".
+func putservertext(w io.Writer, a []byte) {
+	b := new(bytes.Buffer)
+	putdomtext(b, a)
+	if !bytes.Contains(b.Bytes(), []byte(".")) {
+		b.WriteString(".")
+	}
+	if _, err := w.Write(b.Bytes()); err != nil {
+		glog.Errorf("%v", err)
+	}
+}
+
 // write a two-byte location ID
 func putloc(w io.Writer, lo Loc) {
 	var err error
